@@ -22,9 +22,9 @@ func (*C03) Rule() string {
 }
 
 func (*C03) Plan(tier string) orch.Plan {
-	n := 240
+	n := 5000
 	if tier == "thorough" {
-		n = 30000
+		n = 300000
 	}
 	return orch.Plan{Episodes: n, Batch: 1}
 }
